@@ -204,4 +204,57 @@ ValidAlignment(al, x, y, sc, clipsrequired) ==
           /\ ClipLenX(al.ops) = 0 /\ ClipLenY(al.ops) = 0      \* inside a gap run (split convention) is invisible
           /\ \E t \in 1..HiddenSplits(al, Len(x), Len(y)) :
                 al.score = Rescore(al, x, y, sc, FALSE) + t * sc.go
+
+\* ------------------------------------------ scores near the sentinel ("heavy")
+\* Penalties of the order of MIN_SCORE / 2 are legal parameters: a clip of -440 000 000 is neither
+\* "forbidden" (only the value MIN_SCORE is) nor small. The layer above collapses everything below
+\* NEG \div 2; the heavy layer is the same documented model (max over sub-ranges of the best affine
+\* alignment plus the penalties of the non-empty clipped ends) in max-plus arithmetic clamped at
+\* FLOOR = -10^9: a clamped max-plus expression equals max(true value, FLOOR), every operand stays
+\* above -2^31 (no 32-bit overflow inside TLC), and an optimum above HEAVY_TRUST is therefore exact.
+\* Below HEAVY_TRUST the code's own sentinel arithmetic is within reach and nothing is demanded.
+FLOOR == -1000000000
+HEAVY_TRUST == -800000000
+PlusH(a, b) == IF a <= FLOOR \/ b <= FLOOR THEN FLOOR ELSE Max2(a + b, FLOOR)
+PenH(p, len) == IF len = 0 THEN 0 ELSE IF Forbidden(p) THEN FLOOR ELSE p
+
+RECURSIVE GBH(_, _, _, _, _, _)
+GBH(a, b, sc, i, j, st) ==
+    IF i > Len(a) /\ j > Len(b) THEN 0
+    ELSE LET mm == IF i <= Len(a) /\ j <= Len(b)
+                   THEN PlusH(sc.S[a[i]][b[j]], GBH(a, b, sc, i + 1, j + 1, 0)) ELSE FLOOR
+             ii == IF i <= Len(a)
+                   THEN PlusH(IF st = 1 THEN sc.ge ELSE PlusH(sc.go, sc.ge), GBH(a, b, sc, i + 1, j, 1)) ELSE FLOOR
+             dd == IF j <= Len(b)
+                   THEN PlusH(IF st = 2 THEN sc.ge ELSE PlusH(sc.go, sc.ge), GBH(a, b, sc, i, j + 1, 2)) ELSE FLOOR
+         IN  Max3(mm, ii, dd)
+
+ClipCostH(sc, m, n, xs, xe, ys, ye) ==
+    PlusH(PlusH(PenH(sc.xp, xs), PenH(sc.xs, m - xe)), PlusH(PenH(sc.yp, ys), PenH(sc.ys, n - ye)))
+
+BestBruteH(x, y, sc) ==
+    LET m == Len(x)  n == Len(y)
+        cand == {PlusH(GBH(Sub(x, r[1], r[2]), Sub(y, r[3], r[4]), sc, 1, 1, 0),
+                       ClipCostH(sc, m, n, r[1], r[2], r[3], r[4])) :
+                    r \in {q \in (0..m) \X (0..m) \X (0..n) \X (0..n) : q[1] <= q[2] /\ q[3] <= q[4]}}
+    IN  CHOOSE v \in cand : \A w \in cand : w <= v
+
+RECURSIVE ScoreCoreH(_, _, _, _, _, _, _, _)
+ScoreCoreH(codes, k, x, y, sc, px, py, prev) ==
+    IF k > Len(codes) THEN 0
+    ELSE LET c == codes[k] IN
+         CASE c \in {0, 1} -> PlusH(sc.S[x[px + 1]][y[py + 1]], ScoreCoreH(codes, k + 1, x, y, sc, px + 1, py + 1, c))
+           [] c = 3 -> PlusH(IF prev = 3 THEN sc.ge ELSE PlusH(sc.go, sc.ge), ScoreCoreH(codes, k + 1, x, y, sc, px + 1, py, c))
+           [] c = 2 -> PlusH(IF prev = 2 THEN sc.ge ELSE PlusH(sc.go, sc.ge), ScoreCoreH(codes, k + 1, x, y, sc, px, py + 1, c))
+           [] OTHER -> ScoreCoreH(codes, k + 1, x, y, sc, px, py, c)
+
+RescoreH(al, x, y, sc, keepclips) ==
+    PlusH(ScoreCoreH(Core(al.ops, 1, keepclips), 1, x, y, sc, al.xstart, al.ystart, -1),
+          ClipCostH(sc, Len(x), Len(y), al.xstart, al.xend, al.ystart, al.yend))
+
+\* custom mode only (clip operations spelled out)
+ValidAlignmentH(al, x, y, sc) ==
+    /\ ValidShape(al, x, y, TRUE)
+    /\ \/ al.score = RescoreH(al, x, y, sc, TRUE)
+       \/ al.score = RescoreH(al, x, y, sc, FALSE)
 =============================================================================
